@@ -1,6 +1,7 @@
 import OW.Sim.Interleave
 import OW.Sim.CellTasks
 import OW.Sim.Join
+import OW.Sim.JoinWG
 import OW.Props.C04
 import OW.Props.C05Facts
 /-!
@@ -13,6 +14,11 @@ C05 — concurrent cell and model execution is race-free and schedule-independen
   semantics `OW.Sim.cellStep` / `runCells` (C04), via `OW.Sim.CellTasks`;
 * T4 `join_complete` (+ `sender_never_stuck`, `join_progress`, `return_only_after_all_finished`,
   `last_receive_after_all_finished`): the `doneChan` transition system `OW.Sim.Join`, for every N;
+  T4' `wg_join_complete`: the same for a `sync.WaitGroup` join (`OW.Sim.JoinWG`);
+* re-plumbings of the launch: T2 quantifies over ANY task list with pairwise disjoint footprints, so it covers a
+  bounded WORKER POOL once the workers are shown disjoint — `workers_disjoint` (a task is a worker, its footprint the
+  union of the rows of the cells it received; no index reaches two workers), `pool_interleaving`, and on the wrapper
+  semantics `pool_cells_any_interleaving` (every schedule of every pool over the cells `0 … N-1` yields `runCells`);
 * tie A (`OW.Props.C05Facts`, imported): `current_run_facts_ok` on the facts regenerated from the source.
 
 TRUSTED, not proved here (Go memory model): a data-race-free Go program behaves like some interleaving of atomic
@@ -320,6 +326,87 @@ theorem runSched_seqSched : ∀ (ts : List (Task Addr Val)) (k : Nat) (m : Mem A
     rw [this]
     exact runSched_seqSched ts (k + 1) (runList t m)
 
+/-! ### T2 for a bounded worker pool: a task is a worker, its footprint the union of its cells' footprints -/
+
+/-- the task of a pool worker that received the cell indices `idx`, in that order: the steps of those cells, one
+cell after the other -/
+def workerTask (cells : List (Task Addr Val)) (idx : List Nat) : Task Addr Val :=
+  (idx.map fun i => (cells[i]?).getD []).flatten
+
+theorem mem_workerTask {cells : List (Task Addr Val)} {idx : List Nat} {s : Step Addr Val}
+    (h : s ∈ workerTask cells idx) : ∃ i t, i ∈ idx ∧ cells[i]? = some t ∧ s ∈ t := by
+  unfold workerTask at h
+  obtain ⟨l, hl, hs⟩ := List.mem_flatten.mp h
+  obtain ⟨i, hi, rfl⟩ := List.mem_map.mp hl
+  cases hc : cells[i]? with
+  | none => simp [hc] at hs
+  | some t => exact ⟨i, t, hi, hc, by simpa [hc] using hs⟩
+
+/-- **`workers_disjoint`.** A bounded worker pool: the cells' tasks are pairwise disjoint and no cell index is handed
+to two different workers (every value sent on the channel of cell indices is received once). Then the WORKERS' tasks —
+each the concatenation of the tasks of the cells it received — are pairwise disjoint, so T2 applies to the pool. -/
+theorem workers_disjoint (cells : List (Task Addr Val)) (hd : TasksDisjoint cells) (groups : List (List Nat))
+    (hx : ∀ (a b : Nat) (ga gb : List Nat), groups[a]? = some ga → groups[b]? = some gb → a ≠ b →
+      ∀ i, i ∈ ga → ∀ j, j ∈ gb → i ≠ j) :
+    TasksDisjoint (groups.map (workerTask cells)) := by
+  intro a b ta tb ha hb hab s hs t ht
+  rw [List.getElem?_map] at ha hb
+  cases hga : groups[a]? with
+  | none => simp [hga] at ha
+  | some ga =>
+    cases hgb : groups[b]? with
+    | none => simp [hgb] at hb
+    | some gb =>
+      simp only [hga, hgb, Option.map_some, Option.some.injEq] at ha hb
+      subst ha; subst hb
+      obtain ⟨i, ti, hi, hci, hsi⟩ := mem_workerTask hs
+      obtain ⟨j, tj, hj, hcj, htj⟩ := mem_workerTask ht
+      exact hd i j ti tj hci hcj (hx a b ga gb hga hgb hab i hi j hj) s hsi t htj
+
+/-- every interleaving of the workers of a pool ends in the memory of running the workers one after the other -/
+theorem pool_interleaving [DecidableEq Addr] (cells : List (Task Addr Val)) (hd : TasksDisjoint cells) (groups : List (List Nat))
+    (hx : ∀ (a b : Nat) (ga gb : List Nat), groups[a]? = some ga → groups[b]? = some gb → a ≠ b →
+      ∀ i, i ∈ ga → ∀ j, j ∈ gb → i ≠ j)
+    (sched : Sched Addr Val) (hi : Interleaving (groups.map (workerTask cells)) sched) (m : Mem Addr Val) :
+    runSched sched m = seqRun (groups.map (workerTask cells)) m :=
+  disjoint_interleaving _ (workers_disjoint cells hd groups hx) sched hi m
+
+
+theorem flatten_map_workerTask (cells : List (Task Addr Val)) : ∀ groups : List (List Nat),
+    (groups.map (workerTask cells)).flatten = workerTask cells groups.flatten
+  | [] => rfl
+  | g :: gs => by
+    simp only [List.map_cons, List.flatten_cons, flatten_map_workerTask cells gs]
+    simp [workerTask, List.map_append, List.flatten_append]
+
+/-- no index occurs in two different groups of a list of groups whose concatenation has no duplicates -/
+theorem groups_distinct : ∀ (groups : List (List Nat)), groups.flatten.Nodup →
+    ∀ (a b : Nat) (ga gb : List Nat), groups[a]? = some ga → groups[b]? = some gb → a ≠ b →
+      ∀ i, i ∈ ga → ∀ j, j ∈ gb → i ≠ j
+  | [], _, a, b, ga, gb, ha, _, _, _, _, _, _ => by simp at ha
+  | g :: gs, hn, a, b, ga, gb, ha, hb, hab, i, hi, j, hj => by
+    rw [List.flatten_cons, List.nodup_append] at hn
+    obtain ⟨_, hgs, hcross⟩ := hn
+    cases a with
+    | zero =>
+      cases b with
+      | zero => exact absurd rfl hab
+      | succ b =>
+        simp only [List.getElem?_cons_zero, Option.some.injEq] at ha
+        simp only [List.getElem?_cons_succ] at hb
+        subst ha
+        exact hcross i hi j (List.mem_flatten.mpr ⟨gb, List.mem_of_getElem? hb, hj⟩)
+    | succ a =>
+      cases b with
+      | zero =>
+        simp only [List.getElem?_cons_zero, Option.some.injEq] at hb
+        simp only [List.getElem?_cons_succ] at ha
+        subst hb
+        exact fun e => hcross j hj i (List.mem_flatten.mpr ⟨ga, List.mem_of_getElem? ha, hi⟩) e.symm
+      | succ b =>
+        simp only [List.getElem?_cons_succ] at ha hb
+        exact groups_distinct gs hgs a b ga gb ha hb (by omega) i hi j hj
+
 /-! ### order of pairwise non-conflicting steps does not matter (permutation form) -/
 
 /-- steps drawn from a family `f` whose members with different indices never conflict: running them in the order
@@ -477,6 +564,47 @@ theorem cells_any_interleaving_arrays (cells : List (List α)) (outs : List (Lis
   exact ⟨a.symm, b.symm⟩
 
 end Cells
+
+/-! ### T3 for a bounded worker pool over the cells of one `Run` -/
+
+section PoolCells
+open OW OW.Sim OW.Sim.CellTasks
+
+variable {α : Type} [Num α]
+variable (km : KModel α) (spec : ParamSpec) (lay : List (Nat × Nat)) (params : List (List α))
+  (inputs : List (List (List α)))
+
+theorem workerTask_cellTasks (n : Nat) : ∀ idx : List Nat, (∀ i, i ∈ idx → i < n) →
+    workerTask (cellTasks km spec lay params inputs n) idx = idx.map (cellStepM km spec lay params inputs)
+  | [], _ => rfl
+  | i :: idx, h => by
+    have hi : i < n := h i List.mem_cons_self
+    have ih := workerTask_cellTasks n idx (fun k hk => h k (List.mem_cons_of_mem _ hk))
+    unfold workerTask at ih ⊢
+    simp only [List.map_cons, List.flatten_cons, ih]
+    have : (cellTasks km spec lay params inputs n)[i]? = some [cellStepM km spec lay params inputs i] := by
+      simp [cellTasks, List.getElem?_map, List.getElem?_range hi]
+    simp [this]
+
+/-- **`pool_cells_any_interleaving`.** A bounded worker pool over the cells of one `Run`: `groups[w]` are the cell
+indices worker `w` received, in the order it received them, and together they are exactly `0 … N-1`, each once (the
+channel was filled with exactly these and every value sent is received once). Then EVERY interleaving of the workers
+— every schedule of the pool at the granularity of the footprints, whatever the number of workers and whichever
+worker got which cell — ends in the memory image of `runCells`' result, the sequential cell-by-cell run. -/
+theorem pool_cells_any_interleaving (cells : List (List α)) (outs : List (List (List α))) (ss : List (List α))
+    (os : List (List (List α))) (h : runCells km spec lay params inputs 0 cells outs = .ok (ss, os))
+    (groups : List (List Nat)) (hp : groups.flatten.Perm (List.range cells.length))
+    (sched : Sched CAddr (CVal α))
+    (hi : Interleaving (groups.map (workerTask (cellTasks km spec lay params inputs cells.length))) sched) :
+    runSched sched (memOf cells outs) = memOf ss os := by
+  have hn : groups.flatten.Nodup := hp.nodup_iff.mpr List.nodup_range
+  rw [pool_interleaving _ (cellTasks_disjoint km spec lay params inputs cells.length) groups (groups_distinct groups hn) sched hi]
+  simp only [seqRun, flatten_map_workerTask]
+  rw [workerTask_cellTasks km spec lay params inputs cells.length groups.flatten
+    (fun i hi => List.mem_range.mp (hp.mem_iff.mp hi))]
+  exact cells_schedule_independent km spec lay params inputs cells outs ss os h groups.flatten hp
+
+end PoolCells
 
 /-! ### T4 — the `doneChan` join: no sender blocked forever, the parent returns only after all tasks finished -/
 
@@ -706,6 +834,136 @@ theorem join_complete (n : Nat) :
 
 end Join
 
+/-! ### T4' — the `sync.WaitGroup` join: `Wait()` returns only after every goroutine has called `Done()` -/
+
+section JoinWG
+open OW.Sim.JoinWG
+
+theorem count_set_false : ∀ (l : List Bool) (i : Nat), l[i]? = some true → count (l.set i false) + 1 = count l
+  | [], i, h => by simp at h
+  | b :: l, 0, h => by
+    simp at h; subst h; simp [count]; omega
+  | b :: l, i+1, h => by
+    have := count_set_false l i (by simpa using h)
+    simp only [List.set_cons_succ, count]; omega
+
+theorem count_replicate : ∀ n : Nat, count (List.replicate n true) = n
+  | 0 => rfl
+  | n+1 => by simp [List.replicate_succ, count, count_replicate n]; omega
+
+theorem count_zero_allDone : ∀ l : List Bool, count l = 0 → ∀ b, b ∈ l → b = false
+  | [], _, b, hb => by simp at hb
+  | x :: l, h, b, hb => by
+    cases x with
+    | true => simp [count] at h
+    | false =>
+      simp [count] at h
+      rcases List.mem_cons.mp hb with e | e
+      · exact e
+      · exact count_zero_allDone l h b e
+
+theorem count_pos_of_running : ∀ (l : List Bool) (i : Nat), l[i]? = some true → 0 < count l
+  | [], i, h => by simp at h
+  | b :: l, 0, h => by simp at h; subst h; simp [count]; omega
+  | b :: l, i+1, h => by
+    have := count_pos_of_running l i (by simpa using h)
+    simp only [count]; omega
+
+theorem exists_running_of_count_pos : ∀ l : List Bool, 0 < count l → ∃ i : Nat, l[i]? = some true
+  | [], h => by simp [count] at h
+  | true :: l, _ => ⟨0, by simp⟩
+  | false :: l, h => by
+    have h' : 0 < count l := by simpa [count] using h
+    obtain ⟨i, hi⟩ := exists_running_of_count_pos l h'
+    exact ⟨i + 1, by simpa using hi⟩
+
+theorem wg_reach_inv {n : Nat} {s : St} (h : Reach n s) :
+    s.counter = count s.running ∧ (s.waited = true → count s.running = 0) := by
+  induction h with
+  | init => simp [init, count_replicate]
+  | step _ ht ih =>
+    cases ht with
+    | done i hi =>
+      have hc := count_set_false _ i hi
+      have hp := count_pos_of_running _ i hi
+      refine ⟨?_, ?_⟩
+      · simp only; omega
+      · intro hw
+        have := ih.2 hw
+        omega
+    | wait h0 hw =>
+      refine ⟨ih.1, ?_⟩
+      intro _
+      simp only
+      omega
+
+theorem wg_trans_measure {s t : St} (h : Trans s t) : remaining t + 1 = remaining s := by
+  cases h with
+  | done i hi =>
+    have hc := count_set_false _ i hi
+    have hp := count_pos_of_running _ i hi
+    simp only [remaining]
+    omega
+  | wait h0 hw =>
+    simp [remaining, hw]
+
+
+theorem wg_path_reach {n : Nat} {s t : St} {k : Nat} (hs : Reach n s) (h : Path s t k) : Reach n t := by
+  induction h with
+  | nil => exact hs
+  | snoc _ ht ih => exact Reach.step ih ht
+
+theorem wg_path_measure {s t : St} {k : Nat} (h : Path s t k) : remaining t + k = remaining s := by
+  induction h with
+  | nil => simp
+  | snoc _ ht ih => have := wg_trans_measure ht; omega
+
+/-- `Done()` never drives the counter below zero: a goroutine that has not yet called it finds the counter positive -/
+theorem wg_counter_positive (n : Nat) (s : St) (hr : Reach n s) (i : Nat) (hi : s.running[i]? = some true) : 0 < s.counter := by
+  rw [(wg_reach_inv hr).1]
+  exact count_pos_of_running s.running i hi
+
+/-- no deadlock: as long as the parent's `Wait()` has not returned there is a next step (a `Done()`, or the `Wait()`) -/
+theorem wg_progress (n : Nat) (s : St) (hr : Reach n s) (hw : s.waited = false) : ∃ t, Trans s t := by
+  by_cases h0 : count s.running = 0
+  · exact ⟨_, Trans.wait s (by rw [(wg_reach_inv hr).1]; exact h0) hw⟩
+  · obtain ⟨i, hi⟩ := exists_running_of_count_pos s.running (by omega)
+    exact ⟨_, Trans.done s i hi⟩
+
+/-- the parent's `Wait()` has returned only in states where every goroutine has called `Done()` -/
+theorem wg_wait_only_after_all_done (n : Nat) (s : St) (hr : Reach n s) (hw : s.waited = true) : AllDone s :=
+  count_zero_allDone s.running ((wg_reach_inv hr).2 hw)
+
+/-- **T4' `wg_join_complete`.** The `sync.WaitGroup` join (`Add(n)` before the launches, one `Done()` at the end of every
+goroutine, `Wait()` after the launch loop), for EVERY number `n` of goroutines: from the initial state (counter `n`, all running)
+1. every execution has at most `n + 1` transitions (each goroutine calls `Done()` once, the parent's `Wait()` returns once);
+2. as long as `Wait()` has not returned there is a next step (`Done()` never blocks; `Wait()` is enabled when the counter is 0);
+3. every execution of `n + 1` transitions ends with `Wait()` returned and all goroutines done;
+4. `Wait()` has returned only in states where every goroutine has called `Done()` — `Run` returns only after all cells finished;
+5. the counter never goes negative (a `Done()` always finds it positive). -/
+theorem wg_join_complete (n : Nat) :
+    (∀ t k, Path (init n) t k → k ≤ n + 1) ∧
+    (∀ s, Reach n s → s.waited = false → ∃ t, Trans s t) ∧
+    (∀ t, Path (init n) t (n + 1) → t.waited = true ∧ AllDone t) ∧
+    (∀ s, Reach n s → s.waited = true → AllDone s) ∧
+    (∀ (s : St) (i : Nat), Reach n s → s.running[i]? = some true → 0 < s.counter) := by
+  have hm0 : remaining (init n) = n + 1 := by simp [remaining, init, count_replicate]
+  refine ⟨?_, wg_progress n, ?_, wg_wait_only_after_all_done n, fun s i hr hi => wg_counter_positive n s hr i hi⟩
+  · intro t k hp
+    have := wg_path_measure hp
+    omega
+  · intro t hp
+    have hmt := wg_path_measure hp
+    have hr : Reach n t := wg_path_reach Reach.init hp
+    have h0 : remaining t = 0 := by omega
+    have hw : t.waited = true := by
+      cases hwt : t.waited with
+      | true => rfl
+      | false => simp [remaining, hwt] at h0
+    exact ⟨hw, wg_wait_only_after_all_done n t hr hw⟩
+
+end JoinWG
+
 /-! ### Non-vacuity -/
 
 section Examples
@@ -784,6 +1042,49 @@ example : ¬ ∃ t, Trans ⟨[.done, .ready], 2⟩ t := by
       simpa using h
     rcases i with _ | _ | i <;> simp at hi <;> omega
   | rendezvous i hi hlt => simp at hlt
+
+/-- `workers_disjoint`: its hypotheses are satisfiable — three disjoint one-step cells, worker 0 got cells 0 and 2,
+worker 1 got cell 1 -/
+example : TasksDisjoint ([[0, 2], [1]].map (workerTask [[inc 0], [inc 1], [inc 2]])) := by
+  apply workers_disjoint
+  · intro i j ti tj hi hj hij s hs t ht
+    have hi' : i < 3 := by
+      rcases List.getElem?_eq_some_iff.mp hi with ⟨h, _⟩
+      simpa using h
+    have hj' : j < 3 := by
+      rcases List.getElem?_eq_some_iff.mp hj with ⟨h, _⟩
+      simpa using h
+    rcases i with _ | _ | _ | i <;> rcases j with _ | _ | _ | j <;> simp at hi hj hij <;> try omega
+    all_goals (subst hi; subst hj; simp at hs ht; subst hs; subst ht; intro a ha; simp [inc, Step.ofFun, Step.foot] at ha ⊢; omega)
+  · exact groups_distinct [[0, 2], [1]] (by decide)
+
+/-- `pool_cells_any_interleaving` on the toy kernel: ONE worker that received cell 1 and then cell 0 -/
+example {α : Type} [Num α] (a b u v : α) :
+    runSched [(0, cellStepM (toyKernel (α := α)) [] [] [] [[[u]]] 1), (0, cellStepM toyKernel [] [] [] [[[u]]] 0)]
+        (memOf [[a], [b]] [[[v]], [[v]]]) = memOf [[u], [u]] [[[a]], [[b]]] := by
+  apply pool_cells_any_interleaving toyKernel [] [] [] [[[u]]] [[a], [b]] [[[v]], [[v]]] _ _ (toy_run a b u v) [[1, 0]]
+    (List.Perm.swap 0 1 [])
+  have hw : workerTask (cellTasks (toyKernel (α := α)) [] [] [] [[[u]]] 2) [1, 0] =
+      [cellStepM toyKernel [] [] [] [[[u]]] 1, cellStepM toyKernel [] [] [] [[[u]]] 0] := by
+    simp [workerTask, cellTasks, List.range, List.range.loop]
+  simp only [List.map_cons, List.map_nil, List.length_cons, List.length_nil, hw]
+  refine Interleaving.step 0 _ _ rfl (Interleaving.step 0 _ [] rfl (Interleaving.done ?_))
+  intro t ht
+  simp at ht
+  exact ht
+
+/-- T4': a concrete execution for two goroutines: 1 calls `Done()`, 0 calls `Done()`, the parent's `Wait()` returns -/
+example : OW.Sim.JoinWG.Path (OW.Sim.JoinWG.init 2) ⟨[false, false], 0, true⟩ 3 :=
+  .snoc (.snoc (.snoc (.nil _) (.done _ 1 rfl)) (.done _ 0 rfl)) (.wait _ rfl rfl)
+/-- before every goroutine has called `Done()` the parent's `Wait()` has not returned -/
+example : ¬ OW.Sim.JoinWG.Reach 2 ⟨[true, false], 1, true⟩ := by
+  intro h
+  have := wg_wait_only_after_all_done 2 _ h rfl
+  exact absurd (this true (by simp)) (by decide)
+/-- the guard "counter = 0" of `Wait()` is what a wrong `Add` count would change: with `Add(1)` for two goroutines the
+counter reaches zero — and `Wait()` is enabled — while a goroutine is still running; which is why the run facts insist on
+the `Add` count being the launch count (`sameBound`) -/
+example : ∃ t, OW.Sim.JoinWG.Trans ⟨[true, false], 0, false⟩ t ∧ t.waited = true := ⟨_, .wait _ rfl rfl, rfl⟩
 
 end Examples
 
